@@ -63,6 +63,10 @@ pub struct Case {
     /// first channel number the peer uses for its own end of sessions (the endpoint counts from 0)
     #[serde(default)]
     pub peer_ch0: u16,
+    /// the peer sends this frame after its protocol header and before its open (0 begin, 1 flow, 2 empty,
+    /// 3 close, 4 end, 5 attach); the script is not run in that case
+    #[serde(default)]
+    pub pre_open: Option<u8>,
 }
 
 fn ev() -> BoxedStrategy<Ev> {
@@ -81,8 +85,8 @@ fn ev() -> BoxedStrategy<Ev> {
 }
 
 pub fn case_strategy() -> BoxedStrategy<Case> {
-    (0u8..2, prop_oneof![Just(0u16), Just(1), Just(500)], prop_oneof![Just(0u16), Just(1), Just(500)], vec(ev(), 1..6), any::<u64>(), gen::choices_bytes(), simnet::strat::pipe_cfg(), (prop_oneof![3 => Just(None), 1 => Just(Some(50u32)), 1 => Just(Some(400u32))], prop_oneof![3 => Just(0u16), 1 => Just(120u16), 1 => Just(1000u16)], prop_oneof![2 => Just(0u16), 1 => Just(3u16), 1 => Just(100u16)]))
-        .prop_map(|(role, header_delay, open_delay, script, tokio_seed, choices, pipe, (peer_idle, close_answer_delay, peer_ch0))| Case { role, header_delay, open_delay, script, tokio_seed, choices, pipe: PipeCfg { cap: 1 << 22, ..pipe }, peer_idle, close_answer_delay, peer_ch0 })
+    (0u8..2, prop_oneof![Just(0u16), Just(1), Just(500)], prop_oneof![Just(0u16), Just(1), Just(500)], vec(ev(), 1..6), any::<u64>(), gen::choices_bytes(), simnet::strat::pipe_cfg(), (prop_oneof![3 => Just(None), 1 => Just(Some(50u32)), 1 => Just(Some(400u32))], prop_oneof![3 => Just(0u16), 1 => Just(120u16), 1 => Just(1000u16)], prop_oneof![2 => Just(0u16), 1 => Just(3u16), 1 => Just(100u16)], proptest::option::weighted(0.08, 0u8..6)))
+        .prop_map(|(role, header_delay, open_delay, script, tokio_seed, choices, pipe, (peer_idle, close_answer_delay, peer_ch0, pre_open))| Case { role, header_delay, open_delay, script, tokio_seed, choices, pipe: PipeCfg { cap: 1 << 22, ..pipe }, peer_idle, close_answer_delay, peer_ch0, pre_open })
         .boxed()
 }
 
@@ -388,7 +392,112 @@ async fn begin_client<R: Send + 'static>(conn: &mut ConnectionHandle<R>, peer: &
     Ok(None)
 }
 
+/// a frame before the peer's open is illegal in that state: it is not acted on and the connection fails with an error
+async fn run_pre_open(c: &Case, kind: u8) -> Result<Info, String> {
+    let (a, b, _ctl) = simnet::pipe(c.pipe.clone());
+    let mut peer = Peer::new(b, c.choices.clone());
+    let role = c.role;
+    enum H {
+        C(ConnectionHandle<()>),
+        L(fe2o3_amqp::acceptor::ListenerConnectionHandle),
+    }
+    let mut task = tokio::spawn(async move {
+        if role == 0 {
+            Connection::builder().container_id("verif-client").open_with_stream(a).await.map(H::C).map_err(|e| format!("{e:?}"))
+        } else {
+            ConnectionAcceptor::new("verif-listener").accept(a).await.map(H::L).map_err(|e| format!("{e:?}"))
+        }
+    });
+    if role == 0 {
+        peer.expect_header().await?;
+    }
+    peer.send_header(rframe::AMQP_HEADER).await?;
+    let body = match kind % 6 {
+        0 => Some(Peer::begin_body(None, 0, 100, 100, None)),
+        1 => Some(Peer::flow_body(Some(0), 100, 0, 100, None, None, None, false, true)),
+        2 => None,
+        3 => Some(Peer::close_body(None)),
+        4 => Some(Peer::end_body(None)),
+        _ => Some(Peer::attach_body("early", 0, false, None, None, Some(0), None, false)),
+    };
+    match &body {
+        Some(b) => peer.send_frame(0, b, &[]).await?,
+        None => peer.send_empty_frame().await?,
+    }
+    peer.send_frame(0, &Peer::open_body("verif-peer", None, None, None), &[]).await?;
+    peer.settle().await;
+    // answer a close, then look at what happened
+    let mut wrote: Vec<String> = Vec::new();
+    let mut close_err: Option<bool> = None;
+    for (_, it) in peer.items.clone() {
+        if let Item::Frame(f) = it {
+            wrote.push(f.name().to_string());
+            if f.name() == "close" {
+                close_err = Some(matches!(f.field(0), RValue::Described(..)));
+            }
+        }
+    }
+    if close_err.is_some() {
+        let _ = peer.send_frame(0, &Peer::close_body(None), &[]).await;
+    }
+    if let Some(bad) = wrote.iter().find(|n| !matches!(n.as_str(), "open" | "close" | "empty")) {
+        return Err(format!("pre-open frame kind {kind}: the endpoint acted on a frame that arrived before the peer's open: it wrote a {bad} frame (all: {wrote:?})"));
+    }
+    let res = match tokio::time::timeout(std::time::Duration::from_secs(60), &mut task).await {
+        Ok(Ok(r)) => r,
+        Ok(Err(e)) => return Err(format!("pre-open frame kind {kind}: the task inside open/accept panicked: {e}")),
+        Err(_) => {
+            // a connection attempt that is still pending must end once the peer hangs up
+            drop(peer);
+            match tokio::time::timeout(std::time::Duration::from_secs(600), &mut task).await {
+                Ok(Ok(Err(_))) => return Ok(Info { peer_close: false, illegal: true, close_err: false }),
+                Ok(Ok(Ok(_))) => return Err(format!("pre-open frame kind {kind}: open/accept succeeded after the peer hung up")),
+                _ => return Err(format!("pre-open frame kind {kind}: open/accept never returned, even after the peer closed the transport")),
+            }
+        }
+    };
+    match res {
+        Err(_) => {}
+        Ok(h) => {
+            // the connection was opened all the same: then the illegal frame must have closed it with an error
+            let pa = async {
+                loop {
+                    match peer.next_frame().await {
+                        Some(f) if f.name() == "close" => {
+                            let _ = peer.send_frame(0, &Peer::close_body(None), &[]).await;
+                        }
+                        Some(_) => {}
+                        None => tokio::time::sleep(std::time::Duration::from_millis(5)).await,
+                    }
+                }
+            };
+            let cl = async {
+                match h {
+                    H::C(mut c) => c.close().await.map_err(|e| format!("{e:?}")),
+                    H::L(mut c) => c.close().await.map_err(|e| format!("{e:?}")),
+                }
+            };
+            let r = tokio::select! {
+                r = tokio::time::timeout(std::time::Duration::from_secs(60), cl) => r,
+                _ = pa => unreachable!(),
+            };
+            match r {
+                Err(_) => return Err(format!("pre-open frame kind {kind}: close() did not return")),
+                Ok(Ok(())) => return Err(format!("pre-open frame kind {kind}: a frame before the peer's open was tolerated: the connection opened and closed cleanly (endpoint wrote {wrote:?})")),
+                Ok(Err(_)) => {}
+            }
+        }
+    }
+    // (whether the close frame itself carries a condition is not judged here: the failure is reported to the
+    // application by open/accept or by close())
+    let _ = close_err;
+    Ok(Info { peer_close: false, illegal: true, close_err: false })
+}
+
 pub async fn run_async(c: &Case) -> Result<Info, String> {
+    if let Some(k) = c.pre_open {
+        return run_pre_open(c, k).await;
+    }
     let (a, b, _ctl) = simnet::pipe(c.pipe.clone());
     let mut peer = Peer::new(b, c.choices.clone());
     if c.role == 0 {
@@ -470,7 +579,7 @@ fn run(ctx: &ShardCtx, rep: &mut Report) {
     MAX_SHRINK_ITERS.store(400, std::sync::atomic::Ordering::Relaxed);
     // positive control: a clean open/close must produce the reference trace in both roles
     for role in 0..2u8 {
-        let c = Case { role, header_delay: 0, open_delay: 0, script: vec![Ev::LocalClose { peer_err: false }], tokio_seed: 0, choices: vec![], pipe: PipeCfg { cap: 1 << 22, ..PipeCfg::default() }, peer_idle: None, close_answer_delay: 0, peer_ch0: 0 };
+        let c = Case { role, header_delay: 0, open_delay: 0, script: vec![Ev::LocalClose { peer_err: false }], tokio_seed: 0, choices: vec![], pipe: PipeCfg { cap: 1 << 22, ..PipeCfg::default() }, peer_idle: None, close_answer_delay: 0, peer_ch0: 0, pre_open: None };
         if let Err(e) = run_case(&c) {
             rep.violations.push(Violation { variant: "lifecycle".into(), signature: "positive-control".into(), detail: format!("positive control (clean open/close, role {role}) failed: {e}"), case: serde_json::to_value(&c).unwrap() });
             return;
